@@ -387,6 +387,161 @@ def classify_known(p, c, w, author, sc_bool, nohidden):
     return out
 
 
+
+# ------------------------------------------------------------------ C3b: carry across commits
+BASE_FILES = ["README", "t1.txt", "t2.txt", "h.txt"]
+NEW_FILES = ["n1.txt", "sub/n2.txt"]
+
+
+def corpus_carry():
+    """the three-commit split by file: new untracked AI file left out, unrelated human commit, then added"""
+    base = {"README": [1], "t1.txt": [11, 12], "h.txt": [31]}
+    final = {"t1.txt": [11, 12, 101, 102], "n1.txt": [103, 104, 105]}
+    author = {101: "s1", 102: "s1", 103: "s1", 104: "s1", 105: "s1"}
+    return {"name": "carry-demo", "base": base, "ai": [("s1", "t1.txt", final["t1.txt"]), ("s1", "n1.txt", final["n1.txt"])],
+            "final": final, "author": author,
+            "steps": [{"kind": "commit", "stage": {"t1.txt": final["t1.txt"]}},
+                      {"kind": "hcommit", "id": 900},
+                      {"kind": "commit", "stage": {"n1.txt": final["n1.txt"]}}]}
+
+
+def gen_carry(r):
+    ctr = [100]
+
+    def fresh():
+        ctr[0] += 1
+        return ctr[0]
+    base = {"README": [1, 2], "h.txt": [31, 32]}
+    nid = 10
+    tracked = ["t1.txt"] + (["t2.txt"] if r.chance(1, 2) else [])
+    for f in tracked:
+        base[f] = list(range(nid, nid + r.range(2, 5)))
+        nid += 10
+    news = r.shuffle(list(NEW_FILES))[:r.weighted([(5, 1), (3, 2)])]
+    files = r.shuffle(tracked + news)[:r.range(2, 3)]
+    if not any(f in NEW_FILES for f in files) and r.chance(2, 3):
+        files[0] = news[0]
+    author, final, ai, units = {}, {}, [], []
+    sessions = ["s1"] if r.chance(3, 5) else ["s1", "s2"]
+    for f in files:
+        cur = list(base.get(f, []))
+        for s in (sessions if r.chance(1, 3) else [r.pick(sessions)]):
+            for _ in range(r.range(1, 2)):
+                q = r.range(0, len(cur))
+                new = [fresh() for _ in range(r.range(1, 3))]
+                for x in new:
+                    author[x] = s
+                cur[q:q] = new
+            ai.append((s, f, list(cur)))
+        final[f] = cur
+        pf = set(base.get(f, []))
+        run = []
+        for x in cur + [None]:
+            if x is not None and x not in pf:
+                run.append(x)
+                # a new file is one hunk for git; split it into chunks to get a by-hunk partition
+                if f in NEW_FILES and len(run) >= 2 and r.chance(1, 3):
+                    units.append((f, run))
+                    run = []
+            elif run:
+                units.append((f, run))
+                run = []
+    n = min(r.range(2, 4), len(units))
+    order = r.shuffle(list(range(len(units))))
+    group = {}
+    for g, u in enumerate(order[:n]):
+        group[u] = g + 1
+    for u in order[n:]:
+        group[u] = r.range(1, n)
+    gid = {}
+    for u, (f, run) in enumerate(units):
+        for x in run:
+            gid[x] = group[u]
+    ai_between = r.chance(2, 5)
+    steps, hid = [], [900]
+    for k in range(1, n + 1):
+        stage = {}
+        for f in files:
+            pf = set(base.get(f, []))
+            content = [x for x in final[f] if x in pf or gid[x] <= k]
+            had = [x for x in final[f] if x in pf or gid[x] <= k - 1]
+            if content != had:
+                stage[f] = content
+        steps.append({"kind": "commit", "stage": stage})
+        if k < n:
+            for _ in range(r.weighted([(3, 0), (4, 1), (2, 2)])):
+                ev = r.weighted([(6, "hcommit"), (2, "hedit"), (2, "hcp")] + ([(4, "aicommit")] if ai_between else []))
+                hid[0] += 1
+                steps.append({"kind": ev, "id": hid[0], "cp_all": r.chance(1, 2)})
+    return {"name": "carry", "base": base, "ai": ai, "final": final, "author": author, "steps": steps}
+
+
+def note_by_file(note):
+    out = {}
+    if note is not None:
+        for f, hs in note["files"].items():
+            for h, ls in hs.items():
+                if ls:
+                    out.setdefault(f, {}).setdefault(h, set()).update(ls)
+    return out
+
+
+def run_carry(args):
+    base, idx, sc = args
+    sim = Sim(base, f"k{idx}")
+    author = {int(k): v for k, v in sc["author"].items()}
+    try:
+        sim.init({f: txt(ids) for f, ids in sc["base"].items()})
+        tree = {f: list(ids) for f, ids in sc["base"].items()}
+        work = {f: list(ids) for f, ids in sc["base"].items()}
+        for s, f, content in sc["ai"]:
+            sim.checkpoint_human([f])
+            sim.write(f, txt(content))
+            sim.checkpoint_ai(s, [f], tool=TOOL)
+            work[f] = list(content)
+        commits = []
+        for st in sc["steps"]:
+            k = st["kind"]
+            before = {f: list(v) for f, v in tree.items()}
+            if k == "commit":
+                for f, content in st["stage"].items():
+                    sim.write(f, txt(content))
+                    sim.realgit("add", f)
+                    sim.write(f, txt(work[f]))
+                    tree[f] = list(content)
+            elif k == "hedit":
+                work["h.txt"] = work["h.txt"] + [st["id"]]
+                author[st["id"]] = "H"
+                sim.write("h.txt", txt(work["h.txt"]))
+                continue
+            elif k == "hcp":
+                sim.checkpoint_human(None if st.get("cp_all") else ["README"])
+                continue
+            else:
+                who = "H" if k == "hcommit" else "s9"
+                if who != "H":
+                    sim.checkpoint_human(["README"])
+                work["README"] = work["README"] + [st["id"]]
+                author[st["id"]] = who
+                sim.write("README", txt(work["README"]))
+                if who != "H":
+                    sim.checkpoint_ai(who, ["README"], tool=TOOL)
+                sim.realgit("add", "README")
+                tree["README"] = list(work["README"])
+            rc, out, err = sim.git("commit", "-q", "-m", k)
+            if rc != 0:
+                return {"idx": idx, "name": sc["name"], "skip": f"commit failed at {k}: " + err[-200:]}
+            head = sim.head()
+            texts_ok = all(sim.file_at(head, f) == txt(ids) for f, ids in tree.items())
+            commits.append({"kind": k, "before": before, "after": {f: list(v) for f, v in tree.items()},
+                            "note": {f: {h: sorted(s) for h, s in hs.items()} for f, hs in note_by_file(sim.note(head)).items()},
+                            "texts_ok": texts_ok})
+        return {"idx": idx, "name": sc["name"], "commits": commits, "final": sc["final"],
+                "author": {str(k): v for k, v in author.items()}, "scenario": sc, "log": sim.log}
+    finally:
+        shutil.rmtree(sim.base, ignore_errors=True)
+
+
 # ------------------------------------------------------------------ the check
 def run(ctx):
     r = ctx.rng
